@@ -4,6 +4,8 @@ CONSTANTS
     CIDS = {"c1"}
     VALS = {"vA"}
     MAXIDX = 4
+    INITS = {}
+    ROTOPS = {"save","clean","mklogs"}
     KEEPS = {1}
     MAXOPS = 0
     MAXCLEAN = 0
